@@ -737,3 +737,26 @@ define <2 x i64*> @v(<2 x { i32, i64 }*> %p) {
   %q = getelementptr { i32, i64 }, <2 x { i32, i64 }*> %p, <2 x i32> zeroinitializer, <2 x i32> <i32 8589934593, i32 1>
   ret <2 x i64*> %q
 }
+;;; ATOM inst/musttail-varargs-forwarding
+%struct.A = type { i32 (...)** }
+
+declare void @target(%struct.A*, ...)
+
+define void @thunk(%struct.A* %this, ...) {
+entry:
+  %0 = bitcast %struct.A* %this to void (%struct.A*, ...)***
+  %vtable = load void (%struct.A*, ...)**, void (%struct.A*, ...)*** %0
+  %1 = load void (%struct.A*, ...)*, void (%struct.A*, ...)** %vtable
+  musttail call void (%struct.A*, ...) %1(%struct.A* %this, ...)
+  ret void
+}
+
+define void @direct(%struct.A* %this, ...) {
+  musttail call void (%struct.A*, ...) @target(%struct.A* %this, ...)
+  ret void
+}
+
+define void @plain_musttail(i32 %x) {
+  musttail call void @plain_musttail(i32 %x)
+  ret void
+}
